@@ -427,6 +427,30 @@ bool vm_ffi_call(const NvmModule *module, uint32_t import_idx,
 #include <signal.h>
 #include <sys/wait.h>
 
+#ifdef NANOLANG_VERIF
+/* H5: co-process lifecycle events, one ndjson line per step, appended to
+ * $NANOLANG_VERIF_TRACE (inert when the variable is not set). */
+#include <stdarg.h>
+#include <fcntl.h>
+static int nlv_cop_calls = 0;
+static void nlv_cop_ev(const char *fmt, ...) {
+    const char *path = getenv("NANOLANG_VERIF_TRACE");
+    if (!path || !path[0]) return;
+    char line[256];
+    int n = snprintf(line, sizeof(line), "{\"vm\":%d,", (int)getpid());
+    va_list ap;
+    va_start(ap, fmt);
+    n += vsnprintf(line + n, sizeof(line) - (size_t)n - 2, fmt, ap);
+    va_end(ap);
+    line[n++] = '}';
+    line[n++] = '\n';
+    int fd = open(path, O_WRONLY | O_CREAT | O_APPEND, 0644);
+    if (fd < 0) return;
+    if (write(fd, line, (size_t)n) < 0) { /* tracing only */ }
+    close(fd);
+}
+#endif
+
 bool vm_ffi_cop_start(VmState *vm, const NvmModule *module) {
     if (vm->cop_pid > 0) return true;  /* Already running */
 
@@ -477,27 +501,51 @@ bool vm_ffi_cop_start(VmState *vm, const NvmModule *module) {
     vm->cop_pid = pid;
     vm->cop_in_fd = pipe_to_child[1];
     vm->cop_out_fd = pipe_from_child[0];
+#ifdef NANOLANG_VERIF
+    {
+        struct sigaction nlv_sa;
+        sigaction(SIGPIPE, NULL, &nlv_sa);
+        nlv_cop_ev("\"e\":\"sigpipe\",\"disp\":\"%s\"", nlv_sa.sa_handler == SIG_IGN ? "ignored" : "default");
+        nlv_cop_ev("\"e\":\"launch\",\"pid\":%d", (int)pid);
+    }
+#endif
 
     /* Send INIT with serialized module */
     if (!cop_send(vm->cop_in_fd, COP_MSG_INIT, blob, blob_size)) {
+#ifdef NANOLANG_VERIF
+        nlv_cop_ev("\"e\":\"init_sent\",\"ok\":false");
+#endif
         free(blob);
         vm_ffi_cop_stop(vm);
         return false;
     }
     free(blob);
+#ifdef NANOLANG_VERIF
+    nlv_cop_ev("\"e\":\"init_sent\",\"ok\":true");
+#endif
 
     /* Wait for READY */
     CopMsgHeader hdr;
     if (!cop_recv_header(vm->cop_out_fd, &hdr) || hdr.msg_type != COP_MSG_READY) {
+#ifdef NANOLANG_VERIF
+        nlv_cop_ev("\"e\":\"fail\",\"why\":\"ready\"");
+#endif
         vm_ffi_cop_stop(vm);
         return false;
     }
+#ifdef NANOLANG_VERIF
+    nlv_cop_ev("\"e\":\"ready\"");
+#endif
 
     return true;
 }
 
 void vm_ffi_cop_stop(VmState *vm) {
     if (vm->cop_pid <= 0) return;
+#ifdef NANOLANG_VERIF
+    int nlv_term = 0;
+    nlv_cop_ev("\"e\":\"stop\",\"pid\":%d", (int)vm->cop_pid);
+#endif
 
     /* Try graceful shutdown */
     if (vm->cop_in_fd >= 0) {
@@ -518,9 +566,24 @@ void vm_ffi_cop_stop(VmState *vm) {
         w = waitpid(vm->cop_pid, &status, WNOHANG);
         if (w == 0) {
             kill(vm->cop_pid, SIGTERM);
+#ifdef NANOLANG_VERIF
+            nlv_term = 1;
+#endif
             waitpid(vm->cop_pid, &status, 0);
         }
     }
+#ifdef NANOLANG_VERIF
+    if (getenv("NANOLANG_VERIF_TRACE")) {
+        /* has the child really been waited for?  WNOWAIT: look, do not reap */
+        siginfo_t nlv_si;
+        memset(&nlv_si, 0, sizeof(nlv_si));
+        int nlv_r = waitid(P_PID, (id_t)vm->cop_pid, &nlv_si, WEXITED | WNOHANG | WNOWAIT);
+        if (nlv_r == -1)
+            nlv_cop_ev("\"e\":\"reaped\",\"pid\":%d,\"how\":\"%s\"", (int)vm->cop_pid, nlv_term ? "term" : "graceful");
+        else
+            nlv_cop_ev("\"e\":\"unreaped\",\"pid\":%d,\"zombie\":%s", (int)vm->cop_pid, nlv_si.si_pid ? "true" : "false");
+    }
+#endif
 
     vm->cop_pid = -1;
 }
@@ -531,6 +594,9 @@ static bool cop_is_alive(VmState *vm) {
     int status;
     pid_t w = waitpid(vm->cop_pid, &status, WNOHANG);
     if (w > 0) {
+#ifdef NANOLANG_VERIF
+        nlv_cop_ev("\"e\":\"reaped\",\"pid\":%d,\"how\":\"ensure\"", (int)w);
+#endif
         /* Child exited (crash or normal exit) — reap it */
         vm->cop_pid = -1;
         if (vm->cop_in_fd >= 0) { close(vm->cop_in_fd); vm->cop_in_fd = -1; }
@@ -544,6 +610,9 @@ static bool cop_is_alive(VmState *vm) {
  * after a crash. Blocks until the cop is initialized and ready. */
 static bool cop_ensure(VmState *vm, const NvmModule *module,
                        char *error_msg, size_t error_msg_size) {
+#ifdef NANOLANG_VERIF
+    nlv_cop_ev("\"e\":\"call\",\"k\":%d", ++nlv_cop_calls);
+#endif
     /* Already running? */
     if (cop_is_alive(vm)) return true;
 
@@ -562,6 +631,9 @@ bool vm_ffi_call_cop(VmState *vm, const NvmModule *module, uint32_t import_idx,
                      char *error_msg, size_t error_msg_size) {
     /* Lazy launch: start cop on first FFI call, or relaunch after crash */
     if (!cop_ensure(vm, module, error_msg, error_msg_size)) {
+#ifdef NANOLANG_VERIF
+        nlv_cop_ev("\"e\":\"fallback\"");
+#endif
         /* Could not start cop — fall back to in-process FFI */
         return vm_ffi_call(module, import_idx, args, arg_count,
                            result, heap, error_msg, error_msg_size);
@@ -579,6 +651,9 @@ bool vm_ffi_call_cop(VmState *vm, const NvmModule *module, uint32_t import_idx,
     for (int i = 0; i < arg_count && i < 16; i++) {
         uint32_t n = cop_serialize_value(&args[i], payload + pos, sizeof(payload) - pos);
         if (n == 0) {
+#ifdef NANOLANG_VERIF
+            nlv_cop_ev("\"e\":\"fail\",\"why\":\"serialize\"");
+#endif
             snprintf(error_msg, error_msg_size, "COP: failed to serialize arg %d", i);
             return false;
         }
@@ -587,6 +662,9 @@ bool vm_ffi_call_cop(VmState *vm, const NvmModule *module, uint32_t import_idx,
 
     /* Send request */
     if (!cop_send(vm->cop_in_fd, COP_MSG_FFI_REQ, payload, pos)) {
+#ifdef NANOLANG_VERIF
+        nlv_cop_ev("\"e\":\"fail\",\"why\":\"send\"");
+#endif
         /* Pipe broken — cop crashed during our call */
         vm_ffi_cop_stop(vm);
         snprintf(error_msg, error_msg_size,
@@ -594,9 +672,15 @@ bool vm_ffi_call_cop(VmState *vm, const NvmModule *module, uint32_t import_idx,
         return false;
     }
 
+#ifdef NANOLANG_VERIF
+    nlv_cop_ev("\"e\":\"req\",\"k\":%d,\"len\":%u", nlv_cop_calls, pos);
+#endif
     /* Receive response */
     CopMsgHeader hdr;
     if (!cop_recv_header(vm->cop_out_fd, &hdr)) {
+#ifdef NANOLANG_VERIF
+        nlv_cop_ev("\"e\":\"fail\",\"why\":\"hdr\"");
+#endif
         /* Pipe broken — cop crashed while we waited for response */
         vm_ffi_cop_stop(vm);
         snprintf(error_msg, error_msg_size,
@@ -604,6 +688,9 @@ bool vm_ffi_call_cop(VmState *vm, const NvmModule *module, uint32_t import_idx,
         return false;
     }
 
+#ifdef NANOLANG_VERIF
+    nlv_cop_ev("\"e\":\"hdr\",\"type\":%u,\"len\":%u", (unsigned)hdr.msg_type, hdr.payload_len);
+#endif
     if (hdr.msg_type == COP_MSG_FFI_RESULT) {
         if (hdr.payload_len > 0) {
             /* Use stack buffer for small payloads, heap for large (arrays) */
@@ -617,6 +704,9 @@ bool vm_ffi_call_cop(VmState *vm, const NvmModule *module, uint32_t import_idx,
             }
             bool ok = cop_recv_payload(vm->cop_out_fd, recv_buf, hdr.payload_len);
             if (!ok) {
+#ifdef NANOLANG_VERIF
+                nlv_cop_ev("\"e\":\"fail\",\"why\":\"payload\"");
+#endif
                 if (recv_buf != payload) free(recv_buf);
                 snprintf(error_msg, error_msg_size, "COP: failed to receive result payload");
                 return false;
@@ -624,14 +714,23 @@ bool vm_ffi_call_cop(VmState *vm, const NvmModule *module, uint32_t import_idx,
             uint32_t consumed = cop_deserialize_value(recv_buf, hdr.payload_len, result, heap);
             if (recv_buf != payload) free(recv_buf);
             if (consumed == 0) {
+#ifdef NANOLANG_VERIF
+                nlv_cop_ev("\"e\":\"fail\",\"why\":\"decode\"");
+#endif
                 snprintf(error_msg, error_msg_size, "COP: failed to deserialize result");
                 return false;
             }
         } else {
             *result = val_void();
         }
+#ifdef NANOLANG_VERIF
+        nlv_cop_ev("\"e\":\"payload_ok\"");
+#endif
         return true;
     } else if (hdr.msg_type == COP_MSG_FFI_ERROR) {
+#ifdef NANOLANG_VERIF
+        nlv_cop_ev("\"e\":\"fail\",\"why\":\"type\"");
+#endif
         uint32_t err_len = hdr.payload_len < (uint32_t)(error_msg_size - 1)
                            ? hdr.payload_len : (uint32_t)(error_msg_size - 1);
         if (err_len > 0) {
@@ -640,6 +739,9 @@ bool vm_ffi_call_cop(VmState *vm, const NvmModule *module, uint32_t import_idx,
         }
         return false;
     } else {
+#ifdef NANOLANG_VERIF
+        nlv_cop_ev("\"e\":\"fail\",\"why\":\"type\"");
+#endif
         snprintf(error_msg, error_msg_size, "COP: unexpected response type 0x%02x",
                  hdr.msg_type);
         return false;
